@@ -14,7 +14,7 @@ import errno
 import os
 import shutil
 
-from wdmc import envshim, fsops, vsched, wd
+from wdmc import envshim, fsops, inoapi, vsched, wd
 from wdmc import explore as ex
 
 LEVEL = "model_checking"
@@ -59,6 +59,12 @@ class CloseHarness(ex.Harness):
             buf = ib.InotifyBuffer(R, recursive=True)
             for i in range(self.pending):
                 os.mknod(os.path.join(base, "R", "x%d" % i))
+            if self.via == "rmroot":
+                # the watched root disappears: the reader thread ends by itself, close() comes afterwards
+                shutil.rmtree(os.path.join(base, "R"))
+                s.idle("drain")
+            elif self.via == "rmroot-race":
+                shutil.rmtree(os.path.join(base, "R"))   # close() races the reader's own shutdown
             got = []
             if self.via == "consumer":
                 def consumer():
@@ -398,7 +404,30 @@ def setup(tier):
                              exclude=("Inotify.__init__", "Inotify._add_dir_watch", "Inotify._add_watch", "Inotify._parse_event_buffer",
                                       "InotifyBuffer.__init__", "Inotify._raise_error"))
     hs = [CloseHarness(p, via) for p in (0, 1, 2) for via in ("buffer", "consumer")]
+    hs += [CloseHarness(p, via) for p in (0, 1) for via in ("rmroot", "rmroot-race")]
+    inoapi.instrument()
+    hs += [ApiLeak(f"c12 {n}", p) for n, p in inoapi.programs(tier) if p["kind"] == "inotify"]
     return hs, desc
+
+
+class ApiLeak(inoapi.ApiHarness):
+    """API programs over the real InotifyObserver: descriptors and threads after the final stop()+join()."""
+
+    def check(self, res):
+        out = self.base_check(res, allow_errors=True, allow_leak=True)
+        v = res.value
+        if v is None or res.abort:
+            return out
+        for kind, detail in v["fd_violations"]:
+            out.append(dict(kind=kind, msg=f"{kind}: {detail}; program={self.name}", fp=f"{kind}: {detail}"))
+        if v["leftover"]:
+            out.append(dict(kind="fd-leak", msg=f"descriptors still open after stop()+join(): {v['leftover']}; "
+                                                f"program={self.prog}; log={v['log']}",
+                            fp="fd-leak after stop()+join(): " + ",".join(sorted(set(v["leftover"])))))
+        if v["lib_alive"]:
+            out.append(dict(kind="thread-leak", msg=f"library threads alive after stop()+join(): {v['lib_alive']}; program={self.prog}",
+                            fp="thread-leak after stop()+join()"))
+        return out
 
 
 def replay(rec):
@@ -434,6 +463,7 @@ def fault_harnesses(tier):
 def run(ctx):
     hs, ctx.instrumented = setup(ctx.tier)
     q = ctx.tier == "quick"
-    ctx.explore_many([(h, 2 if q else 3) for h in hs], cap=1_500_000 if q else 40_000_000, workers=fsops.fs_workers(ctx))
+    ctx.explore_many([(h, (1 if isinstance(h, ApiLeak) else 2) if q else (2 if isinstance(h, ApiLeak) else 3)) for h in hs],
+                     cap=1_500_000 if q else 40_000_000, workers=fsops.fs_workers(ctx))
     ctx.explore_many([(h, 0) for h in fault_harnesses(ctx.tier)], cap=200_000, selftest=False, workers=fsops.fs_workers(ctx))
     cycles_bfs(ctx, 10 if q else 16, 20000 if q else 400000)
